@@ -194,10 +194,11 @@ class Endpoint:
         self.loss_delivered = False
 
     # --- I/O
-    def feed(self, data):
+    def feed(self, data, settle=True):
+        """one read.  settle=False (asyncio): the event loop is not run afterwards, i.e. the next read arrives in the same loop turn"""
         if self.loss_delivered:
             return
-        self.drv._feed(self, data)
+        self.drv._feed(self, data, settle)
 
     def take(self):
         return self.t.take()
@@ -267,7 +268,7 @@ class TxDriver:
         proto.makeConnection(t)
         return ep
 
-    def _feed(self, ep, data):
+    def _feed(self, ep, data, settle=True):
         try:
             ep.proto.dataReceived(data)
         except Exception as e:  # what twisted.internet.tcp does: log + connectionLost(Failure)
@@ -398,9 +399,12 @@ class AioDriver:
         self.call(proto.connection_made, t)
         return ep
 
-    def _feed(self, ep, data):
+    def _feed(self, ep, data, settle=True):
         try:
-            self.call(ep.proto.data_received, data)
+            if settle:
+                self.call(ep.proto.data_received, data)
+            else:
+                ep.proto.data_received(data)
         except Exception as e:
             ep.escaped.append(e)
             if not ep.loss_delivered:
